@@ -30,6 +30,15 @@ CHECKS = {
              text="each of ~2900 enumerated invalid calls must return non-zero, raise no ASan/UBSan report and leave problem, basis, stored solution and status byte-identical in the query-API dump",
              level="fault_enumeration",
              note="the probe table (checks/c07.py) is the space enumerated; arguments that the API documents as lenient (objsense of QScreate_prob) are not probed"),
+ "C08": dict(tech="runtime monitoring: API-built and file-read problems pushed through QSwrite_prob(LP, plain/.gz/.bz2) -> QSread_prob under sanitizers; name-based exact comparison with the reference model and exact solves of both problems",
+             text="LP write->read round trips of the explored problems reproduce the problem (ranged rows as two halves, empty rows dropped) and its exact status/value",
+             note="problems whose names the writer must repair are compared name-free (multisets) and by solve"),
+ "C09": dict(tech="runtime monitoring: as C08 for MPS incl. native RANGES, plus LP->MPS->LP and MPS->LP->MPS chains, under sanitizers",
+             text="MPS write->read and mixed-format chains of the explored problems reproduce the problem exactly (R rows with same rhs/range)",
+             note="same trusted base as C08"),
+ "C10": dict(tech="runtime monitoring: independent grammar-driven LP/MPS text generator (all lexical choices randomised) -> QSread_prob/QSget_prob under sanitizers -> exact comparison with the generating model",
+             text="every generated syntactically valid file is accepted and read as exactly the rational problem it denotes (20k files per quick run)",
+             note="the generator emits only documented constructs; free-format MPS bound-set names are always explicit (blank names are ambiguous on FR/MI/PL/BV lines)"),
 }
 ENGINES = [
  dict(name="qsdrive", path="harness/qsdrive.c", serves_properties=sorted(CHECKS), kind_free_text="script interpreter over the public API writing a before/after event log; built per flavour (gcc ASan+UBSan, plain) from /repo's working tree by build/mkbuild.py"),
